@@ -104,7 +104,7 @@ func init() {
 func init() {
 	defProperty(&Property{
 		ID:    "C01",
-		Rules: []string{"SIG-PAYLOAD", "SIG-WALK", "SIG-GATE", "SIG-PAIR", "CONS-LEN", "KI-FLOW", "PN-STDLIB"},
+		Rules: []string{"SIG-PAYLOAD", "SIG-WALK", "SIG-GATE", "SIG-PAIR", "CONS-LEN", "KI-FLOW", "PN-STDLIB", "SEAL-GUARD", "WR-VERBATIM"},
 		Explanation: "Static decision of the structural clauses of C01. Acceptance of a token is one call (NewVerifier) in each function of package biscuit that reaches it; SIG-WALK proves, on every path to that call (edge cut-sets over the SSA control-flow graph), that (w1) the authority block's link message was verified with the caller's root key parameter, (w2) inside a full-range loop over container.Blocks each element's link was verified with a loop-carried key whose entry value is Authority.NextKey.Key and whose back-edge value is the verified element's NextKey.Key, every way back to the loop header passes the success edge of that Verify, and every early exit reaches only error returns, (w3) the loop completed, (w4) every path from loop completion to NewVerifier passes the success edge of either bytes.Equal(current key, Public(NewKeyFromSeed(Proof.GetNextSecret()))) or Verify(current key, seal(last block), Proof.GetFinalSignature()), where the last block is Authority if len(blocks)==0 else Blocks[len-1] (per phi edge); the authorizer struct is built nowhere else. SIG-PAYLOAD normalises the message of every ed25519.Sign/Verify call (append chains, fresh buffers, the 4-byte little-endian algorithm buffer) to a component list and requires exactly [BLOCK ALG KEY] or [BLOCK ALG KEY SIG] over one and the same signed block, the right signature operand, and - for signers - that the SignedBlock literal stores exactly the signed bytes, key, algorithm and the signature (sibling agreement between signers and verifier). SIG-GATE: the decoder accepts only after the 32/64-byte gates of the authority and of every block. SIG-PAIR: one GenerateKey per signer, public half signed, Seed() stored as the returned token's next secret. CONS-LEN: len(blocks)==len(container.Blocks) for every Biscuit literal (symbolic lengths, inductive on the parent). KI-FLOW: the public entry point verifies with the selected key. Under the trusted unforgeability of ed25519 this gives 'only if' for all byte strings and, by induction over build/append/seal, 'if' for all library-built tokens.",
 		Decides:     "that no path accepts a token without the complete, correctly keyed signature walk and proof check; that signed and verified messages agree and bind block bytes, algorithm and next key of the same block; decoder size gates; key-pair plumbing of signers",
 		NotDecided:  "ed25519 and protobuf themselves; domain separation between link and seal messages (cryptographic argument); the exported NewVerifier, which by upstream design performs no verification and is outside the property's observation point",
@@ -134,5 +134,35 @@ func init() {
 		Decides:     "the decision procedure's control skeleton for any number and order of checks, queries and policies (properties of loops and branch guards, not of instances)",
 		NotDecided:  "whether each QueryRule result is right (engine, C05); error-producing expressions inside queries (QueryRule discards Apply's error - outside the fragment the property fixes)",
 		Technique:   "SSA phi-leaf / edge-guard analysis of flag and verdict variables, loop-shape (full range, early exit) analysis",
+	})
+}
+
+func init() {
+	defProperty(&Property{
+		ID:    "C09",
+		Rules: []string{"SEAL-GUARD", "SEAL-SAME", "SEAL-NOPROOF", "SIG-WALK", "SIG-PAYLOAD", "RV-ENUM", "WR-VERBATIM", "KI-PROPAGATE", "CONS-LEN"},
+		Explanation: "Static decision of the structural clauses of C09. SEAL-GUARD: in every method that derives a new envelope from a token (today Append and Seal) every Sign call and every success return is dominated by the branch Proof.GetNextSecret() != nil, the failing side returning an error, and the signing key is NewKeyFromSeed of that secret - since Unmarshal keeps the decoded proof unchanged (WR-VERBATIM) a sealed or re-loaded sealed token refuses both operations. SEAL-SAME: the function that signs a seal payload returns a Biscuit whose authority is a copy of *parent.authority, whose blocks[i] are copies of *parent.blocks[i] in a full-range loop into a slice of equal length, whose symbols are a Clone, whose envelope has the parent's Authority pointer and exactly a full copy of the parent's signed Blocks (nothing appended), the parent's RootKeyId (KI-PROPAGATE) and a Proof_FinalSignature. SEAL-NOPROOF: no function reachable (call graph) from any method of the authorizer reads pb.Biscuit.Proof or calls GetProof/GetNextSecret/GetFinalSignature, so the authorization outcome cannot depend on the proof kind. SIG-WALK w4 + SIG-PAYLOAD(seal): an altered seal signature, last block or last key is rejected. RV-ENUM: sealing adds no revocation identifier.",
+		Decides:     "refusal of append/seal on sealed tokens on all paths; structural identity of the sealed token's authorization-relevant content with its parent; independence of authorization from the proof; seal verification binding last block, last key and signature",
+		NotDecided:  "run-time equality of authorization outcomes (follows from SEAL-SAME + SEAL-NOPROOF only modulo engine determinism, C12)",
+		Technique:   "SSA guard dominance + composite-literal provenance + call-graph reachability (who-may-read the proof)",
+	})
+	defProperty(&Property{
+		ID:    "C17",
+		Rules: []string{"RV-ENUM", "WR-VERBATIM", "SIG-PAYLOAD", "SIG-PAIR", "RG-PLUMB"},
+		Explanation: "Static decision of the structural clauses of C17. RV-ENUM: RevocationIds returns a slice that starts from an empty base with Authority.Signature and to which a full-range, in-order loop over container.Blocks appends exactly the Signature of the range element on every iteration (no filter, no early exit): exactly one identifier per signed block, authority first. WR-VERBATIM: every derived envelope keeps the parent's Authority pointer and a full in-order copy of its Blocks (plus at most one new block at the end), Serialize marshals the stored envelope and Unmarshal keeps the decoded one, so the identifiers of a derived or re-loaded token begin with the parent's unchanged and equal the signature field an independent decoder reads. SIG-PAYLOAD + SIG-PAIR + RG-PLUMB: each block signature covers the next public key drawn from the caller's random source in that very operation (exactly one GenerateKey per signing), so two signing operations sign different messages unless the random source repeats.",
+		Decides:     "one identifier per block, order and stability of identifiers across derivation and serialisation; that every signature binds fresh per-operation randomness",
+		NotDecided:  "collision probability of signatures (cryptographic)",
+		Technique:   "SSA accumulator-shape analysis (phi/append normal form) + envelope provenance",
+	})
+}
+
+func init() {
+	defProperty(&Property{
+		ID:    "C07",
+		Rules: []string{"WR-PROTO", "WR-ENUM", "WR-SYMS", "WR-FIELDS", "WR-VERSION", "WR-VERBATIM", "EX-DISPATCH", "SIG-GATE", "KI-PROPAGATE"},
+		Explanation: "Static decision of the finite tables and coverage conditions on which wire fidelity rests, against a frozen copy of the published Biscuit v2 schema (wire constants: message/field numbers and labels, enum members, the 28 default symbols, offset 1024, version 3 - any edit to them is a behaviour change for every other implementation). WR-PROTO: pb/biscuit.proto is parsed and compared field by field and enum by enum with the frozen table, and the generated struct tags (wire kind, number, label, name, oneof) and enum constants of pb/biscuit.pb.go with the same table. WR-ENUM: the encoder and decoder switches for binary/unary operators, term kinds and expression element kinds are extracted clause by clause and must be total over the frozen lists, injective and name-consistent in both directions (datalog.BinaryX <-> pb.OpBinary_X <-> datalog.X{}), which also catches a consistent swap in both directions that round-trips inside this library but breaks interoperability. WR-SYMS: DEFAULT_SYMBOLS equals the frozen list in order, OFFSET is 1024 and never assigned, every threshold constant in Insert/Sym/Index/Str/Var is 1024, builders record Len() of their starting table and split the block's table exactly there. WR-FIELDS: every converter between the library's and the protobuf structures reads every field of its source and sets every field of every result literal. WR-VERSION: the decoder accepts a block only under version>=3 and version<=3 and keeps the declared version; encoders/builders write version 3. WR-VERBATIM: derived and re-loaded tokens carry the parent's signed blocks verbatim and Serialize marshals the stored envelope, so re-serialisation reproduces existing blocks byte for byte.",
+		Decides:     "agreement of schema, generated code, converters and symbol rules with the published wire format; field coverage of all converters; version gate; verbatim carriage of signed blocks",
+		NotDecided:  "byte-level equality of a full round trip and protobuf encoding itself; resolvability of every symbol index for arbitrary block content (only the split point is checked); equality of String() output",
+		Technique:   "table agreement: schema file, struct tags, enum constants and switch clauses extracted from the typed AST and compared with a frozen specification table",
 	})
 }
